@@ -262,6 +262,12 @@ func c08Scenarios(thorough bool) []c08Scenario {
 			threads: [][]string{{"bad:A", "dec:A"}, {"dec:A", "dec:B"}}},
 		c08Scenario{name: "H7-failed-decrypt-default", spec: SpecDefault, parts: []string{"A"},
 			threads: [][]string{{"bad:A", "bad:A", "dec:A"}, {"enc:A"}}},
+		// rotation under users of the old generation: the cached latest key has expired, one thread's encrypt replaces it by
+		// a new generation while the other thread decrypts records written under the old one (which stays cached)
+		c08Scenario{name: "H8-rotation-under-old-generation-default", spec: SpecDefault, parts: []string{"A"}, tick: E + 1,
+			threads: [][]string{{"dec:A", "dec:A"}, {"enc:A", "dec:A"}}},
+		c08Scenario{name: "H8-rotation-under-old-generation-shared-lru", spec: SpecShared("lru", 2), parts: []string{"A"}, tick: E + 1,
+			threads: [][]string{{"dec:A", "dec:A"}, {"enc:A", "dec:A"}}},
 		// two holders of one cached session while it is evicted: the close of the other holder must not tear it down
 		c08Scenario{name: "H6-session-cache-2holders", spec: SpecSessions("slru", 1), parts: []string{"A"},
 			foreign: []string{"B"}, threads: [][]string{{"dec:A", "dec:A"}, {"hold:A"}, {"hold:B"}}},
